@@ -7,9 +7,18 @@ From Verif Require Import Model.Handles Model.Backend Model.Srv Corr.Common.
 Import ListNotations.
 Open Scope N_scope.
 
-Definition dump_entry := (path * (kind * N * N * N * N * sdata * list N))%type.  (* kind perm uid gid size data target *)
-Record istep := { i_step : hstep; i_rpc : N; i_obs : obs; i_calls : list bcall; i_dump : list dump_entry }.
-Record case := { c_cfg : cfg; c_maxh : Z; c_steps : list istep }.
+Definition dump_entry := (path * (kind * N * N * N * N * sdata * list N * N))%type.  (* kind perm uid gid size data target mtime *)
+Record istep := { i_step : hstep; i_rpc : N; i_obs : obs; i_calls : list bcall;
+                  i_raw : list (list N);        (* raw path strings of every backend call of the step (both paths of Rename) *)
+                  i_nh : N;                     (* number of live handles after the step *)
+                  i_dump : list dump_entry }.
+Record case := { c_cfg : cfg; c_maxh : Z; c_init : list dump_entry (* tree before the first request *); c_steps : list istep }.
+
+(* the model's initial tree from the implementation's initial dump (all contents durable, mtime = clock0) *)
+Definition obj_of_dump (now : N) (e : dump_entry) : path * obj :=
+  let '(p, (k, perm, uid, gid, size, data, target, mtime)) := e in
+  (p, {| o_kind := k; o_perm := perm; o_uid := uid; o_gid := gid; o_mtime := mtime;
+         o_size := size; o_data := data; o_dsize := size; o_ddata := data; o_target := target |}).
 
 Definition clock0 : N := 1000000 * 1000000000.
 
@@ -38,9 +47,9 @@ Definition sdata_eqb (a b : sdata) : bool :=
 Definition dump_matches (fs : fsmap) (d : list dump_entry) : bool :=
   (N.of_nat (length fs) =? N.of_nat (length d)) &&
   forallb (fun e =>
-    let '(p, (k, perm, uid, gid, size, data, target)) := e in
+    let '(p, (k, perm, uid, gid, size, data, target, mtime)) := e in
     match fs_get fs p with
-    | Some o => kind_eqb (o_kind o) k && (o_perm o =? perm) && (o_uid o =? uid) && (o_gid o =? gid) &&
+    | Some o => kind_eqb (o_kind o) k && (o_perm o =? perm) && (o_uid o =? uid) && (o_gid o =? gid) && (o_mtime o =? mtime) &&
                 (match k with KFile => (o_size o =? size) && sdata_eqb (o_data o) data | _ => true end) &&
                 bytes_eqb (o_target o) target
     | None => false
@@ -66,7 +75,7 @@ Fixpoint walk_case {A} (f : N -> srv -> srv -> obs -> istep -> list A) (i : N) (
   | [] => []
   | x :: r => let '(s', o) := hrun1 s (i_step x) in f i s s' o x ++ walk_case f (i + 1) s' r
   end.
-Definition init_of (c : case) : srv := srv_init (c_cfg c) (c_maxh c) clock0.
+Definition init_of (c : case) : srv := srv_init_fs (map (obj_of_dump clock0) (c_init c)) (c_cfg c) (c_maxh c) clock0.
 
 (* generic mismatch check with a per-property observation equality *)
 Definition generic_mismatch (obeq : obs -> obs -> bool) (check_tree check_mut : bool) (c : case) : list (N * N) :=
@@ -85,3 +94,72 @@ Definition dbg (c : case) (k : N) :=
      if i =? k then [(o, rev (blog s'), fs s', ac s',
                       (obs_eqb true o (i_obs x), dump_matches (fs s') (i_dump x),
                        list_eqb bcall_eqb (mut_calls (rev (blog s'))) (mut_calls (i_calls x))))] else []) 0 (init_of c) (c_steps c).
+
+(* ================= spec-oracle infrastructure (uses the implementation's observations only) ================= *)
+
+(* ghost handle map: which path each handle value was issued for, read off the implementation's replies *)
+Definition ghost := list (N * path).
+Definition g_get (g : ghost) (h : N) : option path :=
+  match find (fun e => fst e =? h) g with Some e => Some (snd e) | None => None end.
+Definition g_set (g : ghost) (h : N) (p : path) : ghost := (h, p) :: filter (fun e => negb (fst e =? h)) g.
+Definition g_child (g : ghost) (h : N) (n : name) : option path :=
+  match g_get g h with Some d => Some (d ++ [n]) | None => None end.
+
+Definition ghost_update (g : ghost) (x : istep) : ghost :=
+  let o := i_obs x in
+  if negb ((ob_rpc o =? 0) && (ob_status o =? 0)) then g else
+  match hs_req (i_step x), ob_fh o with
+  | RMnt p, Some fh => g_set g fh (clean_comps [] (split_path p))
+  | RLookup h n, Some fh | RCreate h n _ _, Some fh | RMkdir h n _, Some fh | RSymlink h n _ _, Some fh =>
+      match g_child g h n with Some p => g_set g fh p | None => g end
+  | RReaddirplus h _ _ _, _ =>
+      match g_get g h with
+      | Some d => fold_left (fun g e => match de_fh e with Some fh => g_set g fh (d ++ [de_name e]) | None => g end) (ob_entries o) g
+      | None => g
+      end
+  | _, _ => g
+  end.
+
+(* configuration in force, tracked through the administrative steps *)
+Definition cfg_update (c : cfg) (x : istep) : cfg :=
+  match hs_req (i_step x) with
+  | RSetRO b => set_ro c b | RSetMaxFile m => set_maxfile c m | RSetTsize t => set_tsize c t | _ => c
+  end.
+
+Record octx := { oc_i : N; oc_ghost : ghost; oc_first : ghost (* first path ever issued per handle value *);
+                 oc_cfg : cfg; oc_prev : list dump_entry; oc_step : istep }.
+Fixpoint owalk {A} (f : octx -> list A) (i : N) (g first : ghost) (c : cfg) (prev : list dump_entry) (l : list istep) : list A :=
+  match l with
+  | [] => []
+  | x :: r =>
+    let g' := ghost_update g x in
+    let first' := fold_left (fun acc e => match g_get acc (fst e) with Some _ => acc | None => acc ++ [e] end) g' first in
+    f {| oc_i := i; oc_ghost := g; oc_first := first; oc_cfg := c; oc_prev := prev; oc_step := x |}
+      ++ owalk f (i + 1) g' first' (cfg_update c x) (i_dump x) r
+  end.
+Definition oracle {A} (f : octx -> list A) (c : case) : list A := owalk f 0 [] [] (c_cfg c) (c_init c) (c_steps c).
+Definition first_only {A} (l : list A) : list A := match l with [] => [] | x :: _ => [x] end.
+
+(* dump lookups *)
+Definition d_get (d : list dump_entry) (p : path) :=
+  match find (fun e => path_eqb p (fst e)) d with Some e => Some (snd e) | None => None end.
+Definition d_kind (e : kind * N * N * N * N * sdata * list N * N) : kind := let '(k, _, _, _, _, _, _, _) := e in k.
+Definition d_perm (e : kind * N * N * N * N * sdata * list N * N) : N := let '(_, p, _, _, _, _, _, _) := e in p.
+Definition d_uid (e : kind * N * N * N * N * sdata * list N * N) : N := let '(_, _, u, _, _, _, _, _) := e in u.
+Definition d_gid (e : kind * N * N * N * N * sdata * list N * N) : N := let '(_, _, _, g, _, _, _, _) := e in g.
+Definition d_size (e : kind * N * N * N * N * sdata * list N * N) : N := let '(_, _, _, _, s, _, _, _) := e in s.
+Definition d_data (e : kind * N * N * N * N * sdata * list N * N) : sdata := let '(_, _, _, _, _, d, _, _) := e in d.
+Definition d_target (e : kind * N * N * N * N * sdata * list N * N) : list N := let '(_, _, _, _, _, _, t, _) := e in t.
+(* equality of two dump entries / dumps ignoring modification times *)
+Definition dent_eqb (a b : dump_entry) : bool :=
+  path_eqb (fst a) (fst b) && kind_eqb (d_kind (snd a)) (d_kind (snd b)) && (d_perm (snd a) =? d_perm (snd b)) &&
+  (d_uid (snd a) =? d_uid (snd b)) && (d_gid (snd a) =? d_gid (snd b)) && (d_size (snd a) =? d_size (snd b)) &&
+  sdata_eqb (d_data (snd a)) (d_data (snd b)) && bytes_eqb (d_target (snd a)) (d_target (snd b)).
+Definition dump_same (a b : list dump_entry) : bool :=
+  (N.of_nat (length a) =? N.of_nat (length b)) &&
+  forallb (fun e => match find (fun e' => path_eqb (fst e) (fst e')) b with Some e' => dent_eqb e e' | None => false end) a.
+(* ... except at the given paths *)
+Definition dump_same_except (ps : list path) (a b : list dump_entry) : bool :=
+  let keep := filter (fun e : dump_entry => negb (existsb (path_eqb (fst e)) ps)) in
+  dump_same (keep a) (keep b).
+Definition status_ok (x : istep) : bool := (ob_rpc (i_obs x) =? 0) && (ob_status (i_obs x) =? 0).
